@@ -11,7 +11,7 @@ From RPCX Require Client.ClientSM.
 From RPCX Require XClient.FailMode XClient.Multi XClient.Discovery XClient.Backup XClient.Metadata.
 From RPCX Require Server.Dispatch.
 From RPCX Require Pool.Pool.
-From RPCX Require Server.Ingress Server.Gateway.
+From RPCX Require Server.Ingress Server.Gateway Server.StockPlugins.
 From RPCX Require Server.Shutdown.
 From RPCX Require Wire.Shared.
 From RPCX Require E2E.Path.
@@ -36,6 +36,7 @@ Extraction "model.ml"
   Dispatch.crun Dispatch.cinit
   Pool.find_get Pool.find_put Pool.class_size Pool.last_class
   Ingress.serve
+  StockPlugins.whitelist_admits StockPlugins.blacklist_admits StockPlugins.rate_run
   Gateway.http_to_req Gateway.gateway_front Gateway.jsonrpc_front Gateway.parse_query Gateway.atoi
   Shutdown.step Shutdown.init Shutdown.run Shutdown.writes Shutdown.is_open
   Shared.wrun
